@@ -24,7 +24,7 @@ PRIVATE = ["_p", "_q", "__r", "__version__"]
 
 SUB_SRC = "sx = 'sx'\nsy = ['sy']\ndef sz():\n    return 'sz'\n_sp = 0\nclass SC:\n    pass\n"
 LEAF_SRC = "lf = ('lf',)\ndef lg():\n    return 'lg'\n"
-FOREIGN_SRC = "fz = ['fz']\ndef fy():\n    return 'fy'\nclass FK:\n    pass\n_fp = 1\n"
+FOREIGN_SRC = "fz = ['fz']\ndef fy():\n    return 'fy'\nclass FK:\n    pass\n_fp = 1\nfd = {}\ni0 = 0\n"
 MX_SRC = "xq = {'xq': 1}\n"
 
 TARGET_KINDS = ["plain", "init", "inpkg", "subinit", "leaf"]
@@ -128,6 +128,84 @@ class ModGen:
         f = self.rng.choice(fns)
         self.emit(self.rng.choice(["%s.attr = 1", "%s.__dict__['k'] = 2", "%s.attr = %s.other = 3"]).replace("%s", f))
 
+    def st_shapes(self):
+        """assignment targets of every shape over names the module merely imported (or private names): the base /
+        index of an attribute or subscript target is in Load context and binds nothing"""
+        rng, u = self.rng, self.u
+        F = u.F
+        a, b = _anyname(rng, 0.1), _pub(rng)
+        pre_os = ("import os", [("os", "import_foreign")])
+        pre_fk = ("from %s import FK" % F, [("FK", "import_foreign")])
+        pre_fd = ("from %s import fd, i0" % F, [("fd", "import_foreign"), ("i0", "import_foreign")])
+        pre_fz = ("from %s import fz" % F, [("fz", "import_foreign")])
+        pre_mod = ("import %s as fmod" % F, [("fmod", "import_foreign")])
+        pre_dec = ("from json import decoder", [("decoder", "import_foreign")])
+        priv = ("_t = type('T', (), {})\n_d = {}", [("_t", "assign"), ("_d", "assign")])
+        K = "K_" + u.tag
+        forms = [
+            ([pre_os], "os.environ[%r] = 'v'" % K, []),
+            ([pre_dec], "decoder.C19_FLAG = True", []),
+            ([pre_fk], "FK.flag = [1]", []),
+            ([pre_fk], "FK.flag: list = [1]", []),
+            ([pre_fk], "FK.count = 0\nFK.count += 1", []),
+            ([pre_fd, ], "fd[i0] = [1]", []),
+            ([pre_fd], "fd['k']: int = 3", []),
+            ([pre_fd], "fd['n'] = 0\nfd['n'] += 1", []),
+            ([pre_fd, pre_fk], "fd[i0], FK.attr = [1], [2]", []),
+            ([pre_fz], "fz[0:1] = ['fz']", []),
+            ([pre_fz, pre_fd], "fz[i0] = 'fz'", []),
+            ([pre_fk], "%s, FK.attr = [1], [2]" % a, [(a, "tuple")]),
+            ([pre_fk, pre_fz], "(%s, (fz[0], *%s)) = [1], ('fz', [2])" % (a, b), [(a, "tuple"), (b, "tuple")]),
+            ([pre_fk], "*FK.rest, %s = [1], [2], [3]" % a, [(a, "tuple")]),
+            ([pre_fk], "[FK.x, [%s, FK.y]] = [1], ([2], [3])" % a, [(a, "tuple")]),
+            ([pre_mod], "fmod.extra = [1]", []),
+            ([pre_mod, pre_fd], "fmod.fd[fmod.i0] = %s = [1]" % a, [(a, "assign")]),
+            ([pre_fk, pre_fd], "fd[FK].x = 1" if False else "fd[i0] = FK.z = [0]", []),
+            ([pre_os, pre_fk], "with open(os.devnull) as FK.handle:\n    pass", []),
+            ([pre_fk], "for FK.it in ([1], [2]):\n    pass", []),
+            ([pre_fd], "for fd['it'] in ([1],):\n    pass", []),
+            ([pre_fk], "FK.tmp = 1\ndel FK.tmp", []),
+            ([pre_fd], "fd['tmp'] = 1\ndel fd['tmp']", []),
+            ([], "(%s := [1])" % b, [(b, "cond")]),
+            ([pre_fd], "fd[(%s := 'w')] = [1]" % b, [(b, "cond")]),
+            ([priv], "_t.x = 1\n_d['k'] = [2]\n_d['k'], %s = [3], [4]" % a, [(a, "tuple")]),
+            ([priv], "_tmp = [1]\ndel _tmp", []),
+        ]
+        pres, stmt, binds = rng.choice(forms)
+        for src, bs in pres:
+            self.emit(src)
+            for n, h in bs:
+                self.bind(n, h)
+        self.emit(stmt)
+        for n, h in binds:
+            self.bind(n, h)
+
+    def st_del(self):
+        """top-level `del` of names bound so far by assignment / def / class / foreign import (also `del a, b` and
+        delete-then-rebind).  Not generated (clean tree gets them wrong, reported as candidate defects): deleting an
+        own-package re-export; parenthesised targets `del (a, b)`."""
+        rng = self.rng
+        ok = {"def", "async", "class", "assign", "tuple", "ann", "import_foreign"}
+        cands = [n for n, h in self.bound.items() if h and h <= ok and n != "__all__" and n.isidentifier()]
+        if self.allv is not None:
+            cands = [n for n in cands if n not in self.allv]     # keep the module star-importable
+        if not cands:
+            n = _pub(rng)
+            self.emit(rng.choice(["%s = [0]", "def %s():\n    return 0", "class %s:\n    pass"]) % n)
+            self.bind(n, "assign")
+            cands = [n] if (self.allv is None or n not in self.allv) else []
+            if not cands:
+                return
+        k = 1 if rng.random() < 0.7 else 2
+        ns = rng.sample(cands, min(k, len(cands)))
+        self.emit("del " + ", ".join(ns))
+        for n in ns:
+            self.bound.pop(n, None)
+        if rng.random() < 0.35:
+            n = ns[0]
+            self.emit(rng.choice(["%s = [9]", "def %s():\n    return 9", "class %s:\n    pass"]) % n)
+            self.bind(n, "assign")
+
     def st_ann(self):
         n = _anyname(self.rng, 0.1)
         if self.rng.random() < 0.75:
@@ -157,7 +235,7 @@ class ModGen:
             self.emit("from os.path import join as helper"); self.bind("helper", "import_foreign")
         elif c == 7:
             self.emit("from %s import *" % u.F)
-            for n in ("fz", "fy", "FK"):
+            for n in ("fz", "fy", "FK", "fd", "i0"):
                 self.bind(n, "import_foreign")
         elif c == 8:
             self.emit("from %s import xq" % u.MX); self.bind("xq", "import_foreign")
@@ -361,7 +439,7 @@ class ModGen:
         want_all = rng.random() < 0.42
         n_items = rng.randint(0, max_items)
         makers = [(self.st_def, 14), (self.st_async, 5), (self.st_class, 8), (self.st_assign, 14), (self.st_tuple, 6),
-                  (self.st_attr, 3), (self.st_ann, 6), (self.st_foreign, 12), (self.st_own, 14), (self.st_cond, 7),
+                  (self.st_attr, 3), (self.st_shapes, 10), (self.st_del, 7), (self.st_ann, 6), (self.st_foreign, 12), (self.st_own, 14), (self.st_cond, 7),
                   (self.st_other, 5)]
         if want_all:
             makers += [(self.st_all, 10), (self.st_all_aug, 6)]
